@@ -1606,11 +1606,11 @@ func checkGetRowWhole(c *Ctx, r *Report) {
 
 // S-HIST: short histories of a bit array folded from the source, storage included
 func checkBitArrayHistories(c *Ctx, r *Report) {
-	r.Rule("S-HIST", "bit arrays built the way callers build them - NewEmptyBitArray or NewBitArray(n) for n = 0, 1, 31, 32, 33, then 0..70 appended bits (AppendBit, AppendBits in groups of 10, and groups of ten zero bits as AppendBits(0, 10)) - are folded from the source with their real storage (constructor, ensureCapacity and makeArray included, so whatever spare words the growth policy leaves are there), then reversed: after every history the size is the number of bits put in, bit i of the store is the model's bit for i < size and clear for every i from size to the end of the store, and after Reverse bit i is the model's bit size-1-i; dst.AppendBitArray(src), for empty and non-empty dst, leaves dst holding both bit strings, src unchanged, and the two arrays independent (a bit flipped in one does not show in the other)", 1)
+	r.Rule("S-HIST", "bit arrays built the way callers build them - NewEmptyBitArray or NewBitArray(n) for n = 0, 1, 31, 32, 33, then 0..70 appended bits (AppendBit, AppendBits in groups of 10, and groups of ten zero bits as AppendBits(0, 10)) - are folded from the source with their real storage (constructor, ensureCapacity and makeArray included, so whatever spare words the growth policy leaves are there), then reversed: after every history the size is the number of bits put in, bit i of the store is the model's bit for i < size and clear for every i from size to the end of the store, and after Reverse bit i is the model's bit size-1-i; dst.AppendBitArray(src), for empty and non-empty dst, leaves dst holding both bit strings, src unchanged, and the two arrays independent (a bit flipped in one does not show in the other); a source whose last word carries bits beyond its size (NewBitArray(40) after SetBulk(32, 0xFFFFFFFF)) appended to 0, 5, 32 and 64 bits contributes its 40 bits only, and eight clear bits appended afterwards read clear", 1)
 	key := "gozxing.BitArray/histories"
 	need := map[string]*ast.FuncDecl{}
 	var pk *packages.Package
-	for _, n := range []string{"NewEmptyBitArray", "NewBitArray", "BitArray.AppendBit", "BitArray.AppendBits", "BitArray.Reverse", "BitArray.AppendBitArray", "BitArray.Flip"} {
+	for _, n := range []string{"NewEmptyBitArray", "NewBitArray", "BitArray.AppendBit", "BitArray.AppendBits", "BitArray.Reverse", "BitArray.AppendBitArray", "BitArray.Flip", "BitArray.SetBulk"} {
 		fd, p := c.funcDeclOf("", n)
 		if fd == nil {
 			r.AnchorLost("S-HIST", key, n+" not found")
@@ -1822,6 +1822,55 @@ func checkBitArrayHistories(c *Ctx, r *Report) {
 						}
 					}
 				}
+			}
+		}
+	}
+	// a source whose last storage word carries bits beyond its size (SetBulk writes whole words): only the size bits
+	// are appended, and bits appended afterwards read as appended
+	if bad == "" {
+		for _, dstBits := range []int64{0, 5, 32, 64} {
+			if bad != "" {
+				break
+			}
+			what := fmt.Sprintf("NewEmptyBitArray with %d bits, AppendBitArray of NewBitArray(40) after SetBulk(32, 0xFFFFFFFF), then 8 clear bits appended", dstBits)
+			res, e1 := call("NewEmptyBitArray", nil)
+			sres, e2 := call("NewBitArray", nil, vint(40))
+			if e1 != nil || e2 != nil || len(res) != 1 || len(sres) != 1 {
+				bad = fmt.Sprintf("?%s: %v %v", what, e1, e2)
+				break
+			}
+			dst, src := res[0], sres[0]
+			model := []bool{}
+			for k := int64(0); k < dstBits && bad == ""; k++ {
+				b := pattern(k + 3)
+				model = append(model, b)
+				if _, err := call("BitArray.AppendBit", dst, vbool(b)); err != nil {
+					bad = fmt.Sprintf("?%s: %v", what, err)
+				}
+			}
+			if bad != "" {
+				break
+			}
+			if _, err := call("BitArray.SetBulk", src, vint(32), vint(0xFFFFFFFF)); err != nil {
+				bad = fmt.Sprintf("?%s, SetBulk: %v", what, err)
+				break
+			}
+			if _, err := call("BitArray.AppendBitArray", dst, src); err != nil {
+				bad = fmt.Sprintf("?%s: %v", what, err)
+				break
+			}
+			for k := 0; k < 40; k++ {
+				model = append(model, k >= 32)
+			}
+			for k := 0; k < 8 && bad == ""; k++ {
+				model = append(model, false)
+				if _, err := call("BitArray.AppendBit", dst, vbool(false)); err != nil {
+					bad = fmt.Sprintf("?%s: %v", what, err)
+				}
+			}
+			folds++
+			if bad == "" {
+				bad = check(what, dst, model, false)
 			}
 		}
 	}
